@@ -203,6 +203,12 @@ class SymScenario(ScenarioBase):
     def check(self, name, cond, kind="post"):
         self.path.vc(name, cond if isinstance(cond, SV) else bool(cond), kind=kind)
 
+    def lemma(self, name, cond):
+        """cut: prove `cond` here as its own obligation, then use it as a hypothesis for what follows"""
+        self.check(name, cond, kind="lemma")
+        if isinstance(cond, SV):
+            self.path.assume(as_bool_term(cond), "")
+
     def cover(self, label):
         self.path.cover.add(label)
 
@@ -374,6 +380,9 @@ class ConcreteScenario(ScenarioBase):
 
     def check(self, name, cond, kind="post"):
         self.results.append((name, bool(cond), ""))
+
+    def lemma(self, name, cond):
+        self.check(name, cond, kind="lemma")
 
     def cover(self, label):
         self.covered.append(label)
